@@ -241,6 +241,17 @@ func equalFieldType(out any, kind reflect.Kind, key string) bool {
 	return false
 }
 
+// toString converts a key or value taken from fasthttp's buffers to a string. The buffers are reused by the
+// next request, so when the app runs with Config.Immutable the string is copied: bound values may then be kept
+// after the handler returns.
+func toString(b []byte, immutable bool) string {
+	s := utils.UnsafeString(b)
+	if immutable {
+		return utils.CopyString(s)
+	}
+	return s
+}
+
 // Get content type from content type header
 func FilterFlags(content string) string {
 	for i, char := range content {
